@@ -21,7 +21,7 @@ def main():
             "runs the property's quick check and undoes the patch.\n\n| id | change | needs to manifest | reported as (quick tier) | note |\n|---|---|---|---|---|\n")
     open(os.path.join(V, "seeded", "RESULTS.md"), "w").write(head + "\n".join(rows) + "\n")
     p = os.path.join(V, "DESIGN.md"); s = open(p).read()
-    i = s.index("### 10.3 Detection results (seeded changes)"); j = s.index("## Appendix — algorithm sketches")
+    i = s.index("### 10.3 Detection results (seeded changes)"); j = s.index("### 10.4 ") if "### 10.4 " in s else s.index("## Appendix — algorithm sketches")
     body = ("### 10.3 Detection results (seeded changes)\n\nAll %d seeded changes kept under `seeded/` are reported by the quick tier of their property's check (full table with signatures: `seeded/RESULTS.md`; "
             "regenerate with `python3 vp/seedreport.py`).  %d of them were missed by the checks as they stood when the change arrived and led to the strengthening noted below - several times the strengthening "
             "itself then found a genuine defect on the unchanged tree; the checks were re-run on the unchanged tree afterwards and stay silent there.\n\n| id | seeded change (one line) | caught by | strengthening it caused |\n|---|---|---|---|\n"
